@@ -119,7 +119,7 @@ class _FilesystemDataSource(DataSource):
         escaped_key = self._escape_key(key.key)
         dirname = os.path.dirname(escaped_key)
         basename = os.path.basename(escaped_key)
-        if metadata_key:
+        if metadata_key is not None:
             metafile = "{}.meta.{}".format(basename, metadata_key)
             return self.base_path.joinpath(dirname, ".versions", key.version, metafile)
         else:
